@@ -79,6 +79,19 @@ def cases(tier, seed):
                         s[k1] = v1
                         s[k2] = v2
                         out.append(_mk("bounds", s, fmt=fmt, nb=2))
+    # the same integer schemas as ONE alternative of a multi-type `type` list ([integer, string], [integer, boolean]): format and bounds still
+    # describe the integer alternative
+    for tl in (["integer", "string"], ["boolean", "integer"]):
+        for fmt in FORMATS:
+            b0 = {"type": list(tl)}
+            if fmt:
+                b0["format"] = fmt
+            out.append(_mk("bounds", b0, fmt=fmt, nb=0, tlist="+".join(tl)))
+            for k in BOUND_KEYS:
+                for v in (0, 1, 255, -1, 2 ** 31 - 1, 2 ** 63, 2 ** 64 - 1):
+                    s = dict(b0)
+                    s[k] = v
+                    out.append(_mk("bounds", s, fmt=fmt, nb=1, tlist="+".join(tl)))
     # default table: format x <=1 bound x default
     dl = QUICK_LATTICE if tier == "quick" else LATTICE
     bl = [None] + ([0, 1, 255, -128, 2 ** 31 - 1] if tier == "quick" else [0, 1, -1, 127, 255, 256, -128, 65535, 2 ** 31 - 1, -2 ** 31, 2 ** 32 - 1, 100])
@@ -200,6 +213,19 @@ def _inner_builtin(ans):
         hops += 1
     if t is None:
         return None
+    if t.get("kind") == "enum":
+        # a `type` list with several non-null types becomes an untagged enum of one-item variants: the integer alternative is the variant
+        # whose payload is neither String nor bool nor a float (the schemas of this family are [integer, string] / [integer, boolean] lists)
+        for v in t.get("variants", []):
+            if v.get("kind") == "tuple" and len(v.get("data") or []) == 1:
+                u = types.get(v["data"][0])
+                hops = 0
+                while u is not None and u.get("kind") == "newtype" and hops < 5:
+                    u = types.get(u["inner"])
+                    hops += 1
+                if u is not None and u.get("kind") == "builtin" and u["builtin"].replace(" ", "") not in ("bool", "f64", "f32", "::std::string::String"):
+                    return u["builtin"].replace(" ", "")
+        return "?enum-without-integer-variant"
     if t.get("kind") == "builtin":
         return t["builtin"].replace(" ", "")
     if t.get("kind") == "string":
